@@ -18,8 +18,8 @@ TIE = " Tie to /repo: constants regenerated from the source each run; the extrac
 CLAIMS = {
  "C01": C("Coq theorems on the DOPRI5 model (any number type): the solution advances only through steps whose weighted error norm is <= 1, and that norm is built from the user's atol/rtol. The global error bound itself is an analytic consequence and is only measured (closed-form families, tolerance sweeps)." + TIE,
           "Coq proof of the acceptance mechanism + bit-exact correspondence + accuracy experiment", "3/C01", True),
- "C02": C("Order conditions of every rooted tree up to p (and failure at p+1), embedded-estimator orders and row sums are Coq theorems over the tableaux (RK4, RK23, DOPRI5; exact and as-rounded) regenerated from the Rust constants on every run; universally quantified over trees via a proved-complete enumeration. DOP853/Radau orders are covered by the one-step slope experiment and the bit-exact replay only." + TIE,
-          "Coq proof: rational order-condition certificates (vm_compute + enumeration completeness) over constants translated from source", "3/C02", True),
+ "C02": C("Order conditions of every rooted tree up to p (and failure at p+1), embedded-estimator orders and row sums are Coq theorems over the tableaux regenerated from the Rust constants on every run, universally quantified over trees via a proved-complete enumeration: RK4 (4), RK23 (3, estimator 2->q=3), DOPRI5 (5, estimator 4->q=5), exact and as rounded to binary64; DOP853 (8; estimators of order 5 and 3; not 9) with the 30-digit decimals handled as scaled integers over the tableau's common denominator (every residual is M/D^|t| with |M| bounded by the certificate: <= gamma*1e-25, <= gamma*1e-13 for the binary64 values). Radau's order and Pade clause are covered by the one-step slope experiment and the bit-exact replay only." + TIE,
+          "Coq proof: rational / scaled-integer order-condition certificates (vm_compute + enumeration completeness) over constants translated from source", "3/C02", True),
  "C03": C("Coq theorems (real-arithmetic semantics, any kernel/right-hand side/callback, DOPRI5 skeleton): accepted abscissae move strictly toward xend and never pass it, Success implies x = xend, x = xend implies Success or UserInterrupt." + TIE,
           "Coq proof of skeleton invariants over R + bit-exact correspondence", "3/C03", True),
  "C04": C("Coq theorems: on binary64 a NaN error norm fails every comparison and Rust's min/max drop NaN (Floats.FloatAxioms), rejections never enlarge the step (real semantics), a finite budget bounds the number of attempts. Float-level termination with an unlimited budget is not proved: watchdog runs on pathological problems." + TIE,
